@@ -1624,6 +1624,11 @@ class Interp:
                     top = bits[n - 1]
                     cv = CondV(Fact("bits", "==", bits=(top,), const=1), Fact("bits", "==", bits=(top,), const=0), bit=top)
                     return cv if o == ">=" else cv.invert()
+                if o in (">", "<=") and c + 1 == 1 << (n - 1) and n >= 2:
+                    # integers: x > 2**k - 1  is  x >= 2**k
+                    top = bits[n - 1]
+                    cv = CondV(Fact("bits", "==", bits=(top,), const=1), Fact("bits", "==", bits=(top,), const=0), bit=top)
+                    return cv if o == ">" else cv.invert()
                 if o in ("==", "!="):
                     if c >> n:
                         return ConstV(o == "!=")
